@@ -262,6 +262,35 @@ def r5_mapping(ctx):
             if any(o == {"None"} for c, o in g) and all(x.kind == "param" and x.data == 2 for x in btr.operand(t["args"][1])):
                 okp = True
         ctx.check(okp, "%s::get_mapped/records-unmapped-entity" % ctxname, site_of(b), "an entity without a mapping is not recorded as invalid")
+    # the record of unmapped entities only grows until the refuse check has looked at it: closed set of erasing writers
+    CTXS = ("bevy_replicon::shared::event::ctx::ClientReceiveCtx", "bevy_replicon::shared::event::ctx::ClientSendCtx")
+    ERASE = ("clear", "drain", "truncate", "pop", "retain", "remove", "swap_remove", "set_len", "take", "replace", "split_off", "dedup", "append")
+    n_er = 0
+    for p, b in F.fns.items():
+        if "::tests::" in p or not p.startswith(("bevy_replicon::", "<bevy_replicon::")) or not b.blocks:
+            continue
+        btr = None
+        for bb, t in b.calls():
+            m = callee_decl(t).rsplit("::", 1)[-1]
+            if m not in ERASE or not t.get("args"):
+                continue
+            btr = btr or tracer(b)
+            hit = any(any(e[0] == "f" and e[2] == "invalid_entities" and e[3] in CTXS for e in x.path) for a in t["args"][:1] for x in btr.operand(a))
+            if not hit:
+                continue
+            n_er += 1
+            after_check = any(c["kind"] == "boolcall" and c["name"].endswith("::is_empty") and o == {False}
+                              and any(x.path and x.path[-1][2] == "invalid_entities" for x in btr.operand(c["args"][0]))
+                              for (_, c, o) in required_outcomes(F, b, bb))
+            ctx.check(after_check, "%s/invalid_entities.%s-only-after-refusal" % (short(p), m), site_of(b, bb),
+                      "the record of entities that could not be mapped is erased (`%s`) before the map-or-refuse check has seen it: an event or trigger that refers to an "
+                      "entity the receiver does not know is delivered with a placeholder instead of being withheld" % m)
+        for bb, i, st in b.statements():
+            if st["s"] == "assign" and st["place"]["p"] and any(isinstance(e, dict) and e.get("name") == "invalid_entities" and e.get("adt") in CTXS for e in st["place"]["p"]):
+                if b.kind in ("Fn", "AssocFn", "Closure") and not (st["rvalue"]["rv"] == "agg"):
+                    n_er += 1
+                    ctx.bad("%s/invalid_entities-overwritten" % short(p), "%s (%s)" % (b.path, st.get("span", "")), "the record of unmapped entities is overwritten")
+    ctx.check(n_er >= 2, "invalid_entities/erasing-writers", "", "only %d erasing writers of the unmapped-entity records found (expected the two after-refusal clears)" % n_er)
     td = ctx.fn("server_trigger::trigger_deserialize")
     ttr = tracer(td)
     pushes = [(bb, t) for bb, t in td.calls() if callee_decl(t).endswith("Vec::<T, A>::push")]
